@@ -830,6 +830,31 @@ func (p *prover) defs(s *factSet, t term, seen map[term]bool, depth int) {
 		s.eq(t, zeroT(), k)
 		return
 	}
+	// a variable captured by value: it is the value bound where the closure is made (definitional facts of that
+	// value only; the path conditions of the enclosing function are not imported)
+	if u, ok := v.(*ssa.UnOp); ok && u.Op == token.MUL {
+		// a load from a captured variable cell that is assigned exactly once (in the enclosing function)
+		if fv, ok := u.X.(*ssa.FreeVar); ok && isIntType(u.Type()) {
+			if b := freeVarBinding(fv); b != nil {
+				if cell, isCell := b.(*ssa.Alloc); isCell {
+					if sv, ok := singleStore(cell); ok {
+						bt := valT(sv)
+						s.eq(t, bt, 0)
+						p.defs(s, bt, seen, depth+1)
+					}
+				}
+			}
+		}
+	}
+	if fv, ok := v.(*ssa.FreeVar); ok {
+		if b := freeVarBinding(fv); b != nil {
+			if _, isCell := b.(*ssa.Alloc); !isCell && isIntType(b.Type()) {
+				bt := valT(b)
+				s.eq(t, bt, 0)
+				p.defs(s, bt, seen, depth+1)
+			}
+		}
+	}
 	if b, ok := v.Type().Underlying().(*types.Basic); ok {
 		switch b.Kind() {
 		case types.Uint8:
